@@ -324,6 +324,7 @@ pub fn exec_action(w: &Rc<World>, a: &Action) {
                 src: s,
                 made: vec![],
                 fresh_flag,
+                local: None,
             });
             act(w, Act::Memoize { m, src: s });
         }
@@ -332,6 +333,16 @@ pub fn exec_action(w: &Rc<World>, a: &Action) {
             if live.is_empty() { return skipped(w, "no memo") }
             let mi = live[*m % live.len()];
             let f = w.memos.borrow()[mi].f.clone().unwrap();
+            // a function memoised inside a run of a bind that has since re-run: only ask it for a
+            // key whose node is still alive (a fresh node would be born in a dead scope)
+            if let Some((b, g)) = w.memos.borrow()[mi].local {
+                // (nor when the bind is gone altogether: the engine refuses, deliberately, to run
+                // a constructor in a scope that no longer exists)
+                let current = w.model.borrow().bind_run_is_current(b, g) && w.nodes.borrow()[b].weak.strong_count() > 0;
+                let k3 = key.rem_euclid(3);
+                let alive = w.memos.borrow()[mi].made.iter().any(|(k, _, wk)| *k == k3 && wk.strong_count() > 0);
+                if !current && !alive { return skipped(w, "memo of a superseded bind run") }
+            }
             // odd keys go through a fresh clone of the memoised function, as user code may
             let f = if key.rem_euclid(2) == 1 { Rc::new(RefCell::new(f.borrow().clone_box())) } else { f };
             let (n, hid, fresh, prev_alive) = memo_call(w, mi, &f, *key);
